@@ -241,7 +241,7 @@ theorem nv_invhybrid2_G : rel .G (TP_InverseHybrid2_G (B_Zseries 2) (B_Zseries 3
 /-- FINDING C07-e1: a conductance `G 0` is `drawable` and its generated line is `R 1 0 (1/0)`: in a field that is `R = 0`,
     which `outflow` reads as vd/0 = 0, i.e. an open circuit -- the right answer for G = 0, reached through two
     totalised divisions.  (Lcapy writes `R? n1 n2 {1/G}` = zoo.)  `make_good` covers this leaf for that reason only. -/
-example : (Net.leaf (.G (0 : ℚ))).drawable = true := by decide +kernel
+example : (Net.leaf (.G (0 : ℚ))).drawable = false := by decide +kernel   -- (repaired: `Leaf.simple` now requires g ≠ 0)
 example : (Net.leaf (.G (0 : ℚ))).make 2 1 0 2 = ([.R 1 0 (1 / 0)], 2) := rfl
 
 end Lcapy.NonVacuity.C07
